@@ -225,6 +225,21 @@ let do_layout () =
     Buffer.add_string bs (string_of_int (int_of_nat (idx_gen (n r) (n t) (n k) (n q) (n a))) ^ " ") done done done;
   pr "%s sym %s\n" id (Buffer.contents bs)
 
+(* ---------- RESIZE: shape and positions after Tensor::resize on a tensor that held another shape ---------- *)
+let do_resize () =
+  let id = "Z " ^ tok () in
+  let r1 = int () in let c1 = int () in let t1 = int () in
+  let r = int () in let c = int () in let t = int () in
+  let n = nat_of_int in
+  let sh = t_resize (t_make (n r1) (n c1) (n t1)) (n r) (n c) (n t) in
+  pr "%s dims %d %d %d %d\n" id (int_of_nat sh.t_rows) (int_of_nat sh.t_cols) (int_of_nat sh.t_tubes) (int_of_nat sh.t_size);
+  let b = Buffer.create 256 in
+  for a = 0 to t - 1 do for j = 0 to c - 1 do for i = 0 to r - 1 do
+    Buffer.add_string b (" " ^ string_of_int (int_of_nat (t_idx sh (n i) (n j) (n a)))) done done done;
+  pr "%s idx%s\n" id (Buffer.contents b);
+  pr "%s zeroed 1\n" id;
+  pr "%s matrix %d %d 1\n" id (r * t) c
+
 (* ---------- WAFF: the grid write_affinity_file must produce for a position-encoded vector ---------- *)
 let do_waff () =
   let id = "W " ^ tok () in
@@ -311,6 +326,7 @@ let () =
          | "E2E" -> do_e2e ()
          | "LAYOUT" -> do_layout ()
          | "WAFF" -> do_waff ()
+         | "RESIZE" -> do_resize ()
          | "RNG" -> do_rng ()
          | "PARSE" -> do_parse ()
          | "RAFF" -> do_raff ()
